@@ -39,6 +39,9 @@ type sourceFragment struct {
 	program            *analysis.ProgramInfo
 	simpleCheckpoint   factstore.FactStoreWithRemove
 	temporalCheckpoint factstore.TemporalFactStore
+	// What knownPredicates held for the predicates of this fragment before it was
+	// pushed; a nil entry means the predicate was not known.
+	previousDecls map[ast.PredicateSym]*ast.Decl
 }
 
 // Interpreter is an interactive interpreter.
@@ -410,7 +413,16 @@ func (i *Interpreter) Preload(units []parse.SourceUnit, store factstore.FactStor
 
 func (i *Interpreter) pushSourceFragment(pathset string, units []parse.SourceUnit, programInfo *analysis.ProgramInfo) {
 	i.src = append(i.src, pathset)
-	i.sourceFragments[pathset] = &sourceFragment{units, programInfo, i.simpleStore, i.temporalStore}
+	previousDecls := make(map[ast.PredicateSym]*ast.Decl, len(programInfo.Decls))
+	for _, decl := range programInfo.Decls {
+		sym := decl.DeclaredAtom.Predicate
+		if previous, ok := i.knownPredicates[sym]; ok {
+			previousDecls[sym] = &previous
+		} else {
+			previousDecls[sym] = nil
+		}
+	}
+	i.sourceFragments[pathset] = &sourceFragment{units, programInfo, i.simpleStore, i.temporalStore, previousDecls}
 	for _, decl := range programInfo.Decls {
 		i.knownPredicates[decl.DeclaredAtom.Predicate] = *decl
 	}
@@ -451,8 +463,14 @@ func (i *Interpreter) popSourceFragment() *sourceFragment {
 	f := i.sourceFragments[path]
 	i.src = i.src[:l-1]
 	delete(i.sourceFragments, path)
-	for _, decl := range f.program.Decls {
-		delete(i.knownPredicates, decl.DeclaredAtom.Predicate)
+	// Restore the declarations as they were before this fragment: predicates of
+	// earlier fragments that this fragment merely uses stay known.
+	for sym, previous := range f.previousDecls {
+		if previous == nil {
+			delete(i.knownPredicates, sym)
+		} else {
+			i.knownPredicates[sym] = *previous
+		}
 	}
 	i.simpleStore = f.simpleCheckpoint
 	i.temporalStore = f.temporalCheckpoint
